@@ -185,7 +185,7 @@ def run_history(chk, drv, hist, nconn, queries_after_each=True, tag="random"):
                 elif len(set(got)) != len(got):
                     bad = "duplicate rows returned"
                 elif not set(got) <= want:
-                    bad = "returned a row that was not committed or does not match: %r" % (sorted(set(got) - want)[:2],)
+                    bad = "returned a row that was not committed or does not match: %r" % (sorted(set(got) - want, key=repr)[:2],)
                 if bad:
                     chk.fail("filter", dict(case, query=q, detail=bad, got=got[:6]))
                 if committed:
